@@ -334,12 +334,25 @@ def stage4(ctx):
     # ordinary round, five indices: commits in the index that reuses the tally object of index 1
     hs = gen("GV4_ring_commits", Cert="FALSE", MaxI=5, MaxMsgs=3, KSet='{"Prevote", "Precommit"}')
     late = [h for h in hs if sum(1 for o in h if o["op"] == "NextIdx") >= 4]
-    # votes of the same block stored in index 1, whose tally object index 5 reuses
-    stale = [h for h in late if any(o["op"] == "Recv" and o["i"] == 1 and o["k"] == "Precommit" for o in h)]
-    rest = [h for h in late if not any(o["op"] == "Recv" and o["i"] == 1 and o["k"] == "Precommit" for o in h)]
+    # votes stored in the tally of index 1 when that object is recycled for index 5 (delivered for index 1 while the node was
+    # in indices 1..4) by a peer that does not precommit again in index 5 before the commit: only then does the stored vote
+    # set of the recycled object differ from what a correctly cleared one holds at the commit
+    def at(h, n):
+        return 1 + sum(1 for o in h[:n] if o["op"] == "NextIdx")
+
+    def carried(h):
+        st = {o["s"] for n, o in enumerate(h) if o["op"] == "Recv" and o["i"] == 1 and o["k"] == "Precommit" and at(h, n) <= 4}
+        p5 = {o["s"] for o in h if o["op"] == "Recv" and o["i"] == 5 and o["k"] == "Precommit"}
+        return bool(st - p5)
+
+    stale = [h for h in late if carried(h)]
+    rest = [h for h in late if not carried(h)]
+    ctx.cov["stage4r_carried_vote_behaviours"] = len(stale)
+    if not stale:
+        raise vlib.Undecided("stage 4: no behaviour commits in index 5 with a vote carried in the recycled tally: generator bug")
     rnd.shuffle(stale)
     rnd.shuffle(rest)
-    late = (stale[:60] + rest[:10]) if quick else (stale + rest[:400])
+    late = (stale[:90] + rest[:10]) if quick else (stale + rest[:400])   # quick: every carried-vote behaviour (64 of them)
     ctx.note("stage 4 (BLS, ordinary round, commit in index 5 on the recycled tally): %d behaviours" % len(late))
     voter_level(ctx, "4r", bls(late), "VoteCount_Trace3.cfg", True, ("CommitVerifies", "EquivocatorWeightless"))
 
